@@ -73,7 +73,8 @@ def run_suite(seed, n, max_nodes=18, kinds=None, corpus=(), unique_fns=False):
     out = []
     stats = {'cases': 0, 'steps': 0, 'calls': 0, 'errors': {}, 'kinds': {}, 'nontrivial': 0, 'distinct': set(),
              'model_errors': 0, 'den_mismatch': 0, 'sizes': {},
-             'thm_instances': 0, 'thm_contradicted': 0, 'thm_hyp_false': 0}
+             'thm_instances': 0, 'thm_contradicted': 0, 'thm_hyp_false': 0,
+             'decode_instances': 0, 'decode_vs_real_mismatch': 0, 'decode_bad': []}
     for (case, steps), ans in zip(cases, answers):
         stats['cases'] += 1
         real = run_case_real(case, steps)
@@ -114,6 +115,14 @@ def run_suite(seed, n, max_nodes=18, kinds=None, corpus=(), unique_fns=False):
                         stats['thm_contradicted'] += 1
                 elif 'graph_ok' in m:
                     stats['thm_hyp_false'] += 1
+                # instances of CM.C05.hash_determines_value against the REAL value: on a plain graph the value the real
+                # code returns must be decode(hash of the output), the hash being compared with the real one in hash steps
+                if st['t'] == 'call' and m.get('decoded') is not None and 'ok' in r.get('r', {}):
+                    stats['decode_instances'] += 1
+                    if canon(m['decoded']) != canon(r['r']['ok']):
+                        stats['decode_vs_real_mismatch'] += 1
+                        if len(stats['decode_bad']) < 3:
+                            stats['decode_bad'].append({'case': case, 'step': st, 'real': r['r'], 'decoded': m['decoded']})
         out.append((case, steps, real, model, diffs))
     stats['distinct'] = len(stats['distinct'])
     return {'results': out, 'stats': stats}
